@@ -357,10 +357,17 @@ class SyncRun:
             if k == 'next':
                 if self.sl._is_connected and self.sl._queue.empty():
                     return 2          # would block in queue.get()
+                import queue as _q
+                q = self.sl._queue
+                q.get = lambda block=True, timeout=None: _q.Queue.get(q, False)   # never block the harness
                 try:
                     ts, data, blk = self.sl.__next__()
                 except StopIteration:
                     return 1
+                except _q.Empty:
+                    return 5              # next() went into get() on an empty queue: it would block
+                finally:
+                    del q.get
                 if ts != 0x030201 or blk is not self.cfg or list(data.keys()) != [name_str(0)]:
                     return 97
                 return 10 + data[name_str(0)]
